@@ -19,7 +19,10 @@ type (
 		output         chan []byte
 		stderrRing     *ring.Ring
 		stderrLock     sync.RWMutex
-		exitCode       int
+		// pid and exitCode are written by run() and read by the statistics
+		stateLock sync.RWMutex
+		pid       int
+		exitCode  int
 	}
 )
 
@@ -39,6 +42,7 @@ func NewProcess(converterName string, executablePath string) *Process {
 		output:         make(chan []byte),
 		stderrRing:     ring.New(STDERR_RING_SIZE),
 		stderrLock:     sync.RWMutex{},
+		pid:            -1,
 	}
 
 	go process.run()
@@ -61,14 +65,21 @@ func (process *Process) Stderr() []string {
 }
 
 func (process *Process) ExitCode() int {
+	process.stateLock.RLock()
+	defer process.stateLock.RUnlock()
 	return process.exitCode
 }
 
+func (process *Process) setExitCode(exitCode int) {
+	process.stateLock.Lock()
+	defer process.stateLock.Unlock()
+	process.exitCode = exitCode
+}
+
 func (process *Process) Pid() int {
-	if process.cmd == nil || process.cmd.Process == nil {
-		return -1
-	}
-	return process.cmd.Process.Pid
+	process.stateLock.RLock()
+	defer process.stateLock.RUnlock()
+	return process.pid
 }
 
 // Run until input channel is closed
@@ -150,6 +161,9 @@ func (process *Process) run() {
 		}
 		return
 	}
+	process.stateLock.Lock()
+	process.pid = process.cmd.Process.Pid
+	process.stateLock.Unlock()
 
 	for line := range process.input {
 		if _, err := stdin.Write(line); err != nil {
@@ -158,11 +172,11 @@ func (process *Process) run() {
 			if err := process.cmd.Wait(); err != nil {
 				if _, ok := err.(*exec.ExitError); !ok {
 					log.Printf("Converter (%s): Failed to wait for process: %q", process.converterName, err)
-					process.exitCode = -1
+					process.setExitCode(-1)
 				}
 			}
 			if process.cmd.ProcessState != nil {
-				process.exitCode = process.cmd.ProcessState.ExitCode()
+				process.setExitCode(process.cmd.ProcessState.ExitCode())
 			}
 
 			// drain input channel to unblock caller
@@ -178,9 +192,9 @@ func (process *Process) run() {
 	if err := process.cmd.Wait(); err != nil {
 		if _, ok := err.(*exec.ExitError); !ok {
 			log.Printf("Converter (%s): Failed to wait for process: %q", process.converterName, err)
-			process.exitCode = -1
+			process.setExitCode(-1)
 			return
 		}
 	}
-	process.exitCode = process.cmd.ProcessState.ExitCode()
+	process.setExitCode(process.cmd.ProcessState.ExitCode())
 }
